@@ -24,7 +24,9 @@ Payloads(t) ==
       [] t = "lcstr" -> {"lower"}
       [] t = "float" -> {"1.5", "0", "-2", "1e-7", "3 (integral)"}
       [] t = "fint" -> {"3", "0", "1"}
-      [] t = "fbool" -> {"true", "false"}
+      \* "true (fraction)": a truth value given as a non-zero number below one
+      \* (any non-zero number is true)
+      [] t = "fbool" -> {"true", "false", "true (fraction)"}
       [] t = "fboolorfloat" -> {"true", "false", "2.5", "1 (one)"}
       [] t = "fintlist" -> {"[1,2,3]", "[]", "[7]", "[0,2]"}
       [] t = "f1dfloatduple" -> {"(1.5,2)"}
@@ -43,8 +45,11 @@ Reprs(t, p) ==
             {"native", "numpy scalar", "numeric string", "bytes"}
             \cup (IF Integral(t, p) THEN {"int", "float", "numpy int"} ELSE {})
             \cup (IF t = "fint" /\ p \in {"0", "1"} THEN {"bool", "bool string"} ELSE {})
-      [] t = "fbool" -> {"native", "numpy bool", "int", "float", "bool string",
-                         "lower bool string", "numeric string"}
+      [] t = "fbool" ->
+            IF p = "true (fraction)"
+            THEN {"fraction", "fraction string", "negative fraction", "fraction bytes"}
+            ELSE {"native", "numpy bool", "int", "float", "bool string",
+                  "lower bool string", "numeric string"}
       [] t = "fboolorfloat" ->
             IF p = "2.5" THEN {"native", "numeric string"}
             \* the number one is a float, not the truth value it equals
